@@ -8,9 +8,22 @@ resolution is deterministic.
     fresh context) and Context::canonicalize.
 (V) code -> spec: on the bundled database every `prefix + unit [+ s]` string and every plain name [+ s] is resolved by
     the real code; the judge specification Trace_Names decides every recorded (name, lookup, canonical name, lookup of
-    the canonical name) against Resolve over the registry dump."""
+    the canonical name) against Resolve over the registry dump.
+(G-collide) MC_Names_collide*: databases with two spellings of one prefix (a second prefix of the same value) and one
+    more unit whose name is spelled prefix name + exact name [+ s]: an exact definition under a name that also has a
+    prefixed (plural) reading, up to 4 letters.
+(H) histories on ONE long-lived context: the behaviours of MC_Names are growing databases (db, then db + more
+    definitions); the code loads the first part, answers every name, loads the rest with a further Context::load into
+    the same context and answers every name again.  Every answer is compared with the admissible set Names.tla gives for
+    the database as it is at that moment (the state of MC_Names reached so far), and with a context that has the same
+    loads and was never asked anything.  The same on the bundled database: names are asked, a further load defines
+    exact units under names that resolved by prefix / plural (among them long prefix + canonical unit name) and under
+    names that did not resolve, and the names (with every other spelling of the prefix, the aliases of the unit, the
+    plural) are asked again; Trace_Names judges each stage against the registry of that stage."""
+import concurrent.futures as cf
 import json
 import random
+import re
 import time
 
 import evalkit
@@ -20,6 +33,7 @@ from regkit import cps_of, s_of
 from vlib import log
 
 PROP = "C07"
+MAX_SHOWN = 6      # violations written per leg and kind (a stale memo fails thousands of histories the same way)
 LETTERS = "abs"
 MAXLEN = 4
 
@@ -122,19 +136,90 @@ def compare_db(case, res, qs, universe):
     return bad
 
 
-def leg_small(run, cfg, workers, shards, coverage=False, timeout=2400):
+def spelled_out_collision(case):
+    """two prefixes of one value, and the LONGER spelling + an exact name is itself an exactly defined unit"""
+    exact = {s_of(u["name"]) for u in case["units"]} | {s_of(p["name"]) for p in case["prefixes"] if p["k"] == "long"}
+    for p in case["prefixes"]:
+        for q in case["prefixes"]:
+            if p is not q and p["v"] == q["v"] and len(q["name"]) > len(p["name"]):
+                if any(s_of(q["name"]) + u in exact for u in exact):
+                    return True
+    return False
+
+
+# canonical names longer than the query strings TLC printed admissible sets for: these observations are judged by
+# Trace_Names, each line against its own (small) database
+OUTSIDE = []
+
+
+def outside_event(n, h, reg):
+    ev = evalkit.strip_nulls({"n": cps_of(n), "l": h.get("l"), "canon": h.get("canon"), "cl": h.get("cl")})
+    ev["db"] = {"base": reg["base"], "units": reg["units"], "prefixes": reg["prefixes"]}
+    return ev
+
+
+def judge_outside(run, rng, limit):
+    items = OUTSIDE[:]
+    del OUTSIDE[:]
+    total = len(items)
+    if limit is not None and len(items) > limit:
+        items = rng.sample(items, limit)
+    if not items:
+        return {"observed": 0, "judged": 0}
+    t0 = time.time()
+    envp = regkit.write_env("c07-empty-env.json", {"base": [], "units": [], "prefixes": []})
+    # self-check line: the first observation with its canonical name's lookup replaced by a value no name denotes
+    fake = json.loads(json.dumps(items[0][1]))
+    fake["cl"] = {"t": "num", "d": [], "v": {"d": [1], "n": {"neg": False, "mag": [4093]}}}
+    events = [ev for _, ev in items] + [fake]
+    verdicts, st = regkit.judge(events, "Trace_Names", envp, shards=8, tag="c07o", min_per_shard=1500)
+    run.cov["states"] += st["distinct"]
+    run.cov["transitions"] += st["generated"]
+    run.traces(len(items))
+    nrej = {}
+    for j, (case, ev) in enumerate(items):
+        for tag, detail in verdicts.get(j, []):
+            if tag == "REJECT":
+                what = detail.strip('"')
+                nrej[what] = nrej.get(what, 0) + 1
+                if nrej[what] <= MAX_SHOWN:
+                    run.violation(dict(case, what=what), "lookup(name) is a member of Resolve(db, name); if canonicalize(name) = c and "
+                                  "the name resolves, Resolve(db, c) and Resolve(db, name) have a common denotation",
+                                  {"lookup": ev.get("l"), "canon": s_of(ev["canon"]), "canon_lookup": ev.get("cl")}, case["engine"])
+    if not any(t == "REJECT" and d.strip('"') == "canonlookup" for t, d in verdicts.get(len(items), [])):
+        raise vlib.ToolError("self-check: a corrupted lookup of a long canonical name was not rejected by Trace_Names")
+    log("[C07] canonical names outside the query universe: %d observed, %d judged by Trace_Names on their own databases in %.1fs; rejected: %s" % (
+        total, len(items), time.time() - t0, nrej))
+    return {"observed": total, "judged": len(items), "rejected": nrej}
+
+
+def tlc_small(cfg, workers, coverage=False, timeout=2400):
     t0 = time.time()
     r = vlib.tlc("MC_Names", cfg, workers=workers, timeout=timeout, coverage=coverage, tag="c07g", xmx="12g")
+    return r, time.time() - t0
+
+
+def leg_small(run, cfg, workers, shards, coverage=False, timeout=2400, pre=None):
+    r, ttlc = pre if pre is not None else tlc_small(cfg, workers, coverage, timeout)
+    t0 = time.time() - ttlc
     vlib.require_ok(r, cfg)      # the theorems of Names.tla are invariants of this run
     run.add_tlc(r, cfg)
     if coverage:
         never = [a for a in ("AddUnit", "AddPrefix") if r.coverage.get(a, (0, 0))[1] == 0]
+        never += [a for a in r.coverage if a.startswith("Add") and a != "AddAlias" and "collide" in cfg and r.coverage[a][1] == 0]
         if never:
             raise vlib.ToolError("vacuity gate: actions never taken in %s: %s" % (cfg, never))
     cases = vlib.tagged_json(r, "CASE")
     kinds_seen = {u["k"] for c in cases for u in c["units"]} | {p["k"] for c in cases for p in c["prefixes"]}
     if "alias" in cfg and not any(c.get("alias") for c in cases):
         raise vlib.ToolError("vacuity gate: %s generated no alias" % cfg)
+    if "collide" in cfg:
+        two = sum(1 for c in cases if len({p["v"] for p in c["prefixes"]}) < len(c["prefixes"]))
+        col = sum(1 for c in cases if any(len(u["name"]) > 2 for u in c["units"]))
+        both = sum(1 for c in cases if spelled_out_collision(c))
+        if not (two and col and both):
+            raise vlib.ToolError("vacuity gate: %s generated %d databases with two spellings of a prefix, %d with a colliding "
+                                 "unit, %d where long spelling + unit is itself a unit" % (cfg, two, col, both))
     if kinds_seen != {"base", "const", "short", "long"}:
         raise vlib.ToolError("vacuity gate: %s generated only the kinds %s" % (cfg, sorted(kinds_seen)))
     if len(cases) != r.distinct:
@@ -150,6 +235,7 @@ def leg_small(run, cfg, workers, shards, coverage=False, timeout=2400):
     outside = 0
     nbad = 0
     for case, job, rs in zip(cases, jobs, res):
+        byname = None
         if "crash" in rs:
             run.violation({"engine": "small", "defs": job["defs"], "name": None, "what": "crash"},
                           "every name resolves to an admissible denotation or to nothing", rs, "small")
@@ -167,6 +253,9 @@ def leg_small(run, cfg, workers, shards, coverage=False, timeout=2400):
         for (n, what, detail) in compare_db(case, rs, qs, universe):
             if what == "canon-outside":
                 outside += 1
+                if byname is None:
+                    byname = {qs[h["i"]]: h for h in rs["hits"]}
+                OUTSIDE.append(({"engine": "small", "defs": job["defs"], "name": n}, outside_event(n, byname[n], rs["reg"])))
                 continue
             nbad += 1
             adm = [h["adm"] for h in case["hits"] if s_of(h["name"]) == n]
@@ -179,6 +268,201 @@ def leg_small(run, cfg, workers, shards, coverage=False, timeout=2400):
         cfg, len(cases), len(qs), t1 - t0, t2 - t1, time.time() - t2, notloaded, outside, nbad))
     return cases, jobs, res, {"databases": len(cases), "not_loaded_as_intended": notloaded, "canon_outside_universe": outside}
 
+
+
+# ---------------------------------------------------------------------------------------------------------
+# histories: one long-lived context, further loads, the same questions again
+
+def def_items(case):
+    """the definitions of a database as a set of items; two databases with the same items are the same state of MC_Names"""
+    items = [("u", s_of(u["name"]), u["k"], u["v"]) for u in case["units"]]
+    items += [("p", s_of(p["name"]), p["k"], p["v"]) for p in case["prefixes"]]
+    # the alias carries its denotation: a sub-database in which the alias's target reads differently is another alias
+    items += [("a", s_of(a["name"]), s_of(a["t"]), (a["den"]["v"], s_of(a["den"]["d"]))) for a in case.get("alias", [])]
+    return items
+
+
+def render_items(items):
+    lines = []
+    for it in items:
+        if it[0] == "u":
+            lines.append("%s !" % it[1] if it[2] == "base" else "%s %d" % (it[1], it[3]))
+        elif it[0] == "p":
+            lines.append("%s%s %d" % (it[1], "--" if it[2] == "short" else "-", it[3]))
+        else:
+            lines.append("%s %s" % (it[1], it[2]))
+    return "\n".join(lines) + "\n"
+
+
+def adm_map(case):
+    return {s_of(h["name"]): frozenset((a["v"], s_of(a["d"])) for a in h["adm"]) for h in case["hits"]}
+
+
+def changed_names(c1, c2):
+    a1, a2 = adm_map(c1), adm_map(c2)
+    return [n for n in set(a1) | set(a2) if a1.get(n) != a2.get(n)]
+
+
+def small_histories(universe, rng, per_case):
+    """universe: frozenset(items) -> case.  A history is a chain of states of MC_Names, each a sub-database of the next
+    (every one a printed state: its admissible sets are TLC's).  per_case = None: every two-stage split."""
+    out = []
+    for key, case in universe.items():
+        items = sorted(key, key=repr)
+        n = len(items)
+        if n < 2:
+            continue
+        splits = []
+        for mask in range(1, (1 << n) - 1):
+            first = frozenset(items[i] for i in range(n) if mask >> i & 1)
+            c1 = universe.get(first)
+            if c1 is not None:
+                splits.append((len(changed_names(c1, case)), rng.random(), [first, key]))
+        splits.sort(key=lambda t: (-t[0], t[1]))
+        if per_case is not None and len(splits) > per_case:
+            # the splits after which most names change their denotation, and one at random
+            keep = splits[:per_case - 1]
+            keep.append(rng.choice(splits[per_case - 1:]))
+            splits = keep
+        out += [ch for _, _, ch in splits]
+        if n >= 3:
+            # one definition per load, in an order whose every stage is a state of the universe
+            for _ in range(4):
+                order = items[:]
+                rng.shuffle(order)
+                chain = [frozenset(order[:k]) for k in range(1, n + 1)]
+                if all(c in universe for c in chain):
+                    out.append(chain)
+                    break
+    return out
+
+
+def history_job(i, chain, ask_first=True):
+    stages = []
+    prev = frozenset()
+    for k, st in enumerate(chain):
+        stages.append({"defs": render_items(sorted(st - prev, key=repr)), "ask": ask_first or k == len(chain) - 1})
+        prev = st
+    return {"id": i, "base": "empty", "stages": stages}
+
+
+def compare_stage(case, st, qs, universe_q):
+    return compare_db(case, st, qs, universe_q)
+
+
+def leg_history(run, universe, rng, shards, per_case, limit=None):
+    t0 = time.time()
+    qs = queries()
+    uq = set(qs)
+    chains = small_histories(universe, rng, per_case)
+    nall = len(chains)
+    if limit is not None and len(chains) > limit:
+        chains = rng.sample(chains, limit)
+    t1 = time.time()
+    tot = {"code": 0.0, "notloaded": 0, "bad": 0, "stages": 0}
+    shown = {}
+
+    def one(ch, job, rs):
+        loads = [st["defs"] for st in job["stages"]]
+        asked = [st["ask"] for st in job["stages"]]
+        if "crash" in rs:
+            run.violation({"engine": "history", "loads": loads, "asked": asked, "stage": None, "name": None, "what": "crash"},
+                          "every name resolves to an admissible denotation or to nothing", rs, "history")
+            return
+        for k, (key, st) in enumerate(zip(ch, rs["stages"])):
+            case = universe[key]
+            if not st.get("reg_fresh_same", True):
+                # the load gave another registry than the same loads give on a context that was never asked anything
+                tot["bad"] += 1
+                shown["load"] = shown.get("load", 0) + 1
+                if shown["load"] <= MAX_SHOWN:
+                    run.violation({"engine": "history", "loads": loads, "asked": asked, "stage": k, "name": None, "what": "load"},
+                                  "the database is what was loaded: the same loads give the same registry whatever was asked in between",
+                                  {"errors": st["errors"], "registry": st["reg"]}, "history")
+                return
+            # (a load may complain and still give the intended registry: a later load's `b bs` is reported as a dependency
+            # cycle and defined all the same.  What is judged here is name resolution in the database that resulted.)
+            if intended_registry(case) != observed_registry(st["reg"]):
+                tot["notloaded"] += 1
+                if tot["notloaded"] <= 3:
+                    run.drift_note("Loader", "loads %r did not give the intended registry at stage %d: %s %s" % (
+                        loads, k, st["errors"], json.dumps(st["reg"])[:300]))
+                return
+            if "hits" not in st:
+                continue
+            tot["stages"] += 1
+            run.count(len(qs))
+            if k > 0:
+                for n in changed_names(universe[ch[k - 1]], case):
+                    run.nontrivial("h:" + "|".join(loads[:k + 1]) + ":" + n)
+            byname = None
+            for (n, what, detail) in compare_stage(case, st, qs, uq):
+                if what == "canon-outside":
+                    if byname is None:
+                        byname = {qs[h["i"]]: h for h in st["hits"]}
+                    OUTSIDE.append(({"engine": "history", "loads": loads, "asked": asked, "stage": k, "name": n},
+                                    outside_event(n, byname[n], st["reg"])))
+                    continue
+                tot["bad"] += 1
+                shown[what] = shown.get(what, 0) + 1
+                if shown[what] > MAX_SHOWN:
+                    continue
+                adm = [h["adm"] for h in case["hits"] if s_of(h["name"]) == n]
+                run.violation({"engine": "history", "loads": loads, "asked": asked, "stage": k, "name": n, "what": what},
+                              {"admissible_in_the_database_after_load_%d" % k: adm[0] if adm else [],
+                               "rule": "a name denotes what the database, as it is at that moment, says: exact, else prefix x "
+                                       "unit, else the same without a trailing s; the same answer as a context with the same "
+                                       "loads that was never asked anything"},
+                              detail, "history")
+
+    first = ([], [], [])
+    BATCH = 20000           # results are compared and dropped batch by batch (the thorough tier runs > 100000 histories)
+    for lo in range(0, len(chains), BATCH):
+        bchains = chains[lo:lo + BATCH]
+        # every third history asks nothing before the last load (load, load, ask: what an earlier LOAD left behind)
+        jobs = [history_job(lo + i, ch, ask_first=((lo + i) % 3 != 2)) for i, ch in enumerate(bchains)]
+        tc = time.time()
+        res = regkit.run_sharded(lambda i, o: [vlib.rv("rv-names"), "history", "--in", i, "--out", o], jobs, shards, "c07h",
+                                 header={"names": [cps_of(q) for q in qs]})
+        tot["code"] += time.time() - tc
+        if lo == 0:
+            first = (bchains, jobs, res)
+        for ch, job, rs in zip(bchains, jobs, res):
+            one(ch, job, rs)
+    notloaded, nbad, nstages = tot["notloaded"], tot["bad"], tot["stages"]
+    if notloaded * 20 > len(chains):
+        raise vlib.ToolError("%d of %d histories did not load as intended: the history leg cannot run" % (notloaded, len(chains)))
+    log("[C07] histories: %d chains (%d judged stages) x %d names; build %.1fs, code %.1fs, compare %.1fs; not loaded %d, mismatches %d" % (
+        len(chains), nstages, len(qs), t1 - t0, tot["code"], time.time() - t1 - tot["code"], notloaded, nbad))
+    return first[0], first[1], first[2], {"histories": len(chains), "histories_generated": nall, "stages_judged": nstages,
+                                          "not_loaded_as_intended": notloaded,
+                                          "three_or_more_loads": sum(1 for c in chains if len(c) >= 3), "mismatches": nbad}
+
+
+def selfcheck_history(run, universe, chains, jobs, res):
+    """a stale answer (the previous stage's) for a name whose denotation the last load changed must be flagged"""
+    qs = queries()
+    for ch, job, rs in zip(chains, jobs, res):
+        if "crash" in rs or len(ch) != 2 or not all("hits" in st for st in rs["stages"]):
+            continue
+        c1, c2 = universe[ch[0]], universe[ch[1]]
+        a1, a2 = adm_map(c1), adm_map(c2)
+        stale = [n for n in a1 if n in a2 and not (a1[n] & a2[n])]
+        if not stale:
+            continue
+        if compare_stage(c2, rs["stages"][1], qs, set(qs)):
+            continue        # the genuine observation is already flagged (a finding, reported by the leg)
+        n = stale[0]
+        fake = json.loads(json.dumps(rs["stages"][1]))
+        old = [h for h in rs["stages"][0]["hits"] if qs[h["i"]] == n]
+        for h in fake["hits"]:
+            if qs[h["i"]] == n and old:
+                h["l"] = old[0]["l"]
+        if not any(w == "lookup" and nm == n for nm, w, _ in compare_stage(c2, fake, qs, set(qs))):
+            raise vlib.ToolError("self-check: a stale answer after a further load was not flagged")
+        run.note("selfcheck_history_stale_answer_flagged", True)
+        return
+    run.note("selfcheck_history_stale_answer_flagged", "skipped: no history whose genuine observations are all accepted")
 
 # ---------------------------------------------------------------------------------------------------------
 # bundled database
@@ -274,6 +558,246 @@ def leg_bundled(run, dump, envp, names, shards, label):
     return {"names": len(names), "with_two_or_more_candidate_readings": namb, "rejected": nrej}
 
 
+# ---------------------------------------------------------------------------------------------------------
+# bundled database + a further load (history on the real database)
+
+_plain = re.compile(r"^[A-Za-z]+$")
+
+
+def referenced_names(dump):
+    """every identifier some definition of the bundled database refers to (its value was fixed when it was loaded)"""
+    out = set()
+
+    def walk(x):
+        if isinstance(x, dict):
+            if x.get("k") == "unit" and isinstance(x.get("name"), list):
+                out.add(s_of(x["name"]))
+            for v in x.values():
+                walk(v)
+        elif isinstance(x, list):
+            for v in x:
+                walk(v)
+    for d in dump["defs"]:
+        walk(d["def"])
+    for sub in dump["substances"]:
+        for pr in sub["props"]:
+            out.add(s_of(pr["input_name"]))
+            out.add(s_of(pr["output_name"]))
+    return out
+
+
+class BundledView:
+    """python-side index of the dump, used ONLY to choose inputs (which names to define and to ask); never for verdicts"""
+    def __init__(self, dump):
+        self.exact = set(u["s"] for u in dump["units"]) | set(s_of(b) for b in dump["base"])
+        self.pres = [(p["s"], json.dumps(p["v"], sort_keys=True)) for p in dump["prefixes"]]
+        self.byval = {}
+        for n, v in self.pres:
+            self.byval.setdefault(v, []).append(n)
+        self.alias_of = {}
+        for u in dump["units"]:
+            if u["alias"]:
+                self.alias_of.setdefault(s_of(u["def"]["name"]), []).append(u["s"])
+        for ln in dump["long_names"]:
+            self.alias_of.setdefault(s_of(ln["short"]), []).append(s_of(ln["long"]))
+            self.alias_of.setdefault(s_of(ln["long"]), []).append(s_of(ln["short"]))
+        self.plain_units = sorted(n for n in self.exact if _plain.match(n) and len(n) >= 3)
+        self.nonalias = sorted(set(u["s"] for u in dump["units"] if not u["alias"] and _plain.match(u["s"]) and "def" in u)
+                               | set(s_of(ln["long"]) for ln in dump["long_names"]))
+        refs = referenced_names(dump)
+        self.ref_tails = set()
+        for r in refs:
+            for x in (r, r[:-1] if r.endswith("s") else None):
+                if x:
+                    for k in range(len(x)):
+                        self.ref_tails.add(x[k:])
+
+    def splits(self, n):
+        return [(p, n[len(p):]) for p, _ in self.pres if n.startswith(p) and n[len(p):] in self.exact]
+
+    def cls(self, n):
+        """least class of reading (0 exact, 1 prefix, 2 plural, 3 prefixed plural), None when the name does not resolve"""
+        if n in self.exact:
+            return 0
+        if self.splits(n):
+            return 1
+        if n.endswith("s"):
+            if n[:-1] in self.exact:
+                return 2
+            if self.splits(n[:-1]):
+                return 3
+        return None
+
+    def usable(self, n):
+        """a new exact definition under this name changes no reading a bundled definition was evaluated with"""
+        return n not in self.ref_tails and n not in ("ans", "ANS", "_") and _plain.match(n) is not None
+
+
+def further_load(view, rng, n_prefixed=36, n_plural=12, n_fresh=12):
+    """-> (definitions text, names to ask, info).  New exact units, each `name k unit` with its own k:
+    names that resolve by prefix (half of them spelled long prefix + a unit that is its own canonical name), names that
+    resolve only as plurals, and names that do not resolve at all."""
+    longs = [n for n, v in view.pres if any(len(m) < len(n) for m in view.byval[v]) and _plain.match(n)]
+    allp = [n for n, _ in view.pres if _plain.match(n)]
+    chosen = {}
+
+    def pick(kind, gen, want):
+        got = 0
+        for _ in range(want * 60):
+            if got >= want:
+                break
+            n, expect = gen()
+            if n in chosen or not view.usable(n) or view.cls(n) not in expect:
+                continue
+            if any(n.startswith(c) or c.startswith(n) or n.endswith(c) or c.endswith(n) for c in chosen):
+                continue          # the new definitions do not read each other
+            chosen[n] = kind
+            got += 1
+    pick("long prefix + canonical unit", lambda: (rng.choice(longs) + rng.choice(view.nonalias), (1,)), n_prefixed // 2)
+    pick("prefix + unit", lambda: (rng.choice(allp) + rng.choice(view.plain_units), (1,)), n_prefixed - n_prefixed // 2)
+    pick("plural", lambda: (rng.choice([""] * 2 + allp) + rng.choice(view.plain_units) + "s", (2, 3)), n_plural)
+    pick("unresolved", lambda: ("".join(rng.choice("bcdfghjklmnpqrtvwxz") + rng.choice("aeiou") for _ in range(rng.randint(3, 4)))
+                                + rng.choice(["", "", "s"]), (None,)), n_fresh)
+    defs = []
+    ask = []
+    k = 1000
+    for n, kind in chosen.items():
+        k += rng.randint(1, 9)
+        defs.append("%s %d %s" % (n, k, rng.choice(["meter", "second", "gram", "byte", "radian", "1"])))
+        fam = [n, n + "s"]
+        for p, stem in (view.splits(n) + (view.splits(n[:-1]) if n.endswith("s") else [])):
+            pv = dict(view.pres)[p]
+            stems = [stem] + view.alias_of.get(stem, [])
+            for q in view.byval[pv]:                      # every spelling of the same prefix
+                for st in stems:                           # the unit and its other names
+                    fam += [q + st, q + st + "s"]
+        if n.endswith("s"):
+            fam += [n[:-1]]
+        for p in rng.sample(allp, 4):
+            fam += [p + n, p + n + "s"]
+        ask += fam
+    ask = [a for a in dict.fromkeys(ask) if a not in ("ans", "ANS", "_")]
+    kinds = {}
+    for kind in chosen.values():
+        kinds[kind] = kinds.get(kind, 0) + 1
+    return "\n".join(defs) + "\n", ask, {"new_exact_definitions": kinds}
+
+
+def run_bundled_history(defs, names, tag="c07bh"):
+    job = {"id": 0, "base": "bundled", "stages": [{"defs": "", "ask": True}, {"defs": defs, "ask": True}],
+           "names": [cps_of(n) for n in names]}
+    return regkit.run_sharded(lambda i, o: [vlib.rv("rv-names"), "history", "--timeout-ms", "600000", "--in", i, "--out", o],
+                              [job], 1, tag)[0]
+
+
+def stage_events(names, st):
+    obs = {h["i"]: h for h in st["hits"]}
+    evs = []
+    det = []
+    for i, n in enumerate(names):
+        h = obs.get(i, {})
+        evs.append(evalkit.strip_nulls({"n": cps_of(n), "l": h.get("l"), "canon": h.get("canon"), "cl": h.get("cl")}))
+        det.append((h.get("again_same", True), h.get("fresh_same", True)))
+    return evs, det
+
+
+def stage_env(name, st):
+    return regkit.write_env(name, {"base": st["reg"]["base"], "units": st["reg"]["units"], "prefixes": st["reg"]["prefixes"]})
+
+
+def leg_bundled_history(run, dump, rng, extra_names, shards):
+    t0 = time.time()
+    view = BundledView(dump)
+    defs, ask, info = further_load(view, rng)
+    names = list(dict.fromkeys(ask + extra_names))
+    rs = run_bundled_history(defs, names)
+    t1 = time.time()
+    case0 = {"engine": "bundled-history", "defs": defs}
+    if "crash" in rs:
+        run.violation(dict(case0, stage=None, name=None, what="crash"),
+                      "every name resolves to an admissible denotation or to nothing", rs, "bundled-history")
+        return info
+    if not all(st.get("reg_fresh_same", True) for st in rs["stages"]):
+        run.violation(dict(case0, stage=1, name=None, what="load"),
+                      "the database is what was loaded: the same loads give the same registry whatever was asked in between",
+                      {"errors": rs["stages"][1]["errors"]}, "bundled-history")
+        return info
+    if rs["stages"][1]["errors"]:
+        raise vlib.ToolError("the further load on the bundled database was refused: %s" % rs["stages"][1]["errors"])
+    before = {s_of(u["name"]) for u in rs["stages"][0]["reg"]["units"]}
+    after = {s_of(u["name"]) for u in rs["stages"][1]["reg"]["units"]}
+    if len(after - before) != len(defs.splitlines()):
+        raise vlib.ToolError("the further load defined %d new units, %d were written" % (len(after - before), len(defs.splitlines())))
+    nrej = {}
+    changed = 0
+    staged = [stage_events(names, st) for st in rs["stages"]]
+    per_stage = [ev for ev, _ in staged]
+    # self-check lines: for the newly defined names, the answer of BEFORE the load, judged against the registry of AFTER it,
+    # must be rejected (the exact definition wins).  They are appended to the second stage's lines.
+    newnames = set(ln.split()[0] for ln in defs.splitlines())
+    stale = [j for j, n in enumerate(names) if n in newnames and per_stage[0][j].get("l") != per_stage[1][j].get("l")]
+    stale_evs = []
+    for j in stale:
+        e = dict(per_stage[1][j])
+        e.pop("l", None)
+        if "l" in per_stage[0][j]:
+            e["l"] = per_stage[0][j]["l"]
+        stale_evs.append(e)
+
+    def judge_stage(k):
+        events = per_stage[k] + (stale_evs if k == 1 else [])
+        return regkit.judge(events, "Trace_Names", stage_env("c07bh-env%d.json" % k, rs["stages"][k]), shards=shards,
+                            tag="c07bhj%d" % k, min_per_shard=400)
+    with cf.ThreadPoolExecutor(max_workers=2) as ex:
+        judged = list(ex.map(judge_stage, range(2)))
+    shown = {}
+
+    def report(case, expected, observed):
+        shown[case["what"]] = shown.get(case["what"], 0) + 1
+        nrej[case["what"]] = nrej.get(case["what"], 0) + 1
+        if shown[case["what"]] <= MAX_SHOWN:
+            run.violation(case, expected, observed, "bundled-history")
+    for k, (verdicts, stats) in enumerate(judged):
+        events, det = staged[k]
+        run.cov["states"] += stats["distinct"]
+        run.cov["transitions"] += stats["generated"]
+        run.traces(len(events))
+        run.count(len(events))
+        for j, n in enumerate(names):
+            if not (det[j][0] and det[j][1]):
+                report(dict(case0, stage=k, name=n, what="determinism"),
+                       "a name denotes the same value every time in a given database: the same answer again, and the "
+                       "same as a context with the same loads that was never asked anything",
+                       {"again_same": det[j][0], "fresh_same": det[j][1], "lookup": events[j].get("l")})
+            for tag, detail in verdicts.get(j, []):
+                if tag == "REJECT":
+                    canon = s_of(events[j]["canon"]) if "canon" in events[j] else None
+                    report(dict(case0, stage=k, name=n, what=detail.strip('"'), canon=canon),
+                           "judged against the registry as it is after load %d: lookup(name) is a member of Resolve(db, name); "
+                           "if canonicalize(name) = c and the name resolves, Resolve(db, c) and Resolve(db, name) have a "
+                           "common denotation" % k,
+                           {"lookup": events[j].get("l"), "canon": canon, "canon_lookup": events[j].get("cl")})
+            if k == 1 and per_stage[0][j].get("l") != events[j].get("l"):
+                changed += 1
+                run.nontrivial("bh:" + n)
+    if nrej:
+        run.note("selfcheck_bundled_history_stale_answers_rejected", "skipped: the genuine observations are already rejected")
+    elif not stale:
+        raise vlib.ToolError("vacuity gate: the further load changed the denotation of none of the names it defines")
+    else:
+        v1 = judged[1][0]
+        caught = sum(1 for i in range(len(stale_evs))
+                     if any(t == "REJECT" and d.strip('"') == "lookup" for t, d in v1.get(len(names) + i, [])))
+        if caught != len(stale_evs):
+            raise vlib.ToolError("self-check: %d of %d stale answers (of before the further load) were accepted by Trace_Names "
+                                 "against the registry of after it" % (len(stale_evs) - caught, len(stale_evs)))
+        run.note("selfcheck_bundled_history_stale_answers_rejected", caught)
+    info.update({"names_asked_before_and_after": len(names), "names_whose_answer_changed": changed, "rejected": nrej})
+    log("[C07] bundled history: %d new definitions, %d names x 2 stages; code %.1fs, judge %.1fs; answers changed by the load: %d; rejected: %s" % (
+        len(defs.splitlines()), len(names), t1 - t0, time.time() - t1, changed, nrej))
+    return info
+
+
 def selfcheck(run, dump, envp):
     """the binding is not vacuous: corrupted observations must be rejected by Trace_Names"""
     names = ["kilometers", "mm", "min"]
@@ -338,26 +862,55 @@ def run(tier, seed):
                        "theorems ExactWins/PluralLast/LeastClass/TranscriptionAdmissible as invariants, replayed on the real loader + lookup "
                        "+ canonicalize. (V) bundled database: prefix + unit [+ s] strings and plain names [+ s] resolved by the code and "
                        "judged by Trace_Names against the registry dump. non-trivial = distinct (database, name) with >= 2 candidate "
-                       "readings (the shadowing rules decide).")
+                       "readings (the shadowing rules decide). (G-collide) the same with two spellings of one prefix and a unit named "
+                       "prefix + exact name [+ s]. (H) histories: sub-database loaded, every name asked, the rest loaded into the "
+                       "same context, every name asked again (and chains of one definition per load); each stage compared with the "
+                       "admissible sets of the MC_Names state reached; bundled database + a further load of exact units under names "
+                       "that resolved by prefix / plural / not at all, each stage judged by Trace_Names against that stage's "
+                       "registry. non-trivial there = (history, name) whose admissible set the load changed.")
     run.assumptions += ["harness trusted for: string <-> code points, num-bigint <-> base-4096 limbs, JSON equality of two lookups",
                         "the value of the one float-valued unit is not compared (dimensionality only)",
-                        "small universe: a long prefix never shares its name with a unit (the loader's insertion order is C08/C12's subject)"]
+                        "small universe: a long prefix never shares its name with a unit (the loader's insertion order is C08/C12's subject)",
+                        "histories only ADD uniquely named definitions: no exact name is defined twice, and no later definition changes "
+                        "the reading of a name an earlier definition refers to (what a definition's right-hand side meant when it was "
+                        "loaded is C08/C12's subject)"]
     vlib.build_harness()
     rng = random.Random(seed)
 
     # ---- G
-    cases, jobs, res, info = leg_small(run, "MC_Names_quick", workers=4, shards=6, coverage=True)
+    more = ("MC_Names_alias2", "MC_Names_collide_t", "MC_Names_t32", "MC_Names_t22") if thorough else ("MC_Names_alias1", "MC_Names_collide1")
+    pre = {}
+    if not thorough:
+        # the quick tier's three generator runs are small: TLC explores them side by side (4 workers each)
+        with cf.ThreadPoolExecutor(max_workers=3) as ex:
+            futs = {c: ex.submit(tlc_small, c, 4, c == "MC_Names_quick" or "collide" in c) for c in ("MC_Names_quick",) + more}
+            pre = {c: f.result() for c, f in futs.items()}
+    cases, jobs, res, info = leg_small(run, "MC_Names_quick", workers=4, shards=6, coverage=True, pre=pre.get("MC_Names_quick"))
     selfcheck_small(run, cases, jobs, res)
     ginfo = {"MC_Names_quick": info}
+    universe = {frozenset(def_items(c)): c for c in cases}
     mid = cases[len(cases) // 2]
     run.sample({"leg": "G", "defs": render_defs(mid), "admissible": {s_of(h["name"]): h["adm"] for h in mid["hits"][:6]}})
-    for cfg in (("MC_Names_alias2", "MC_Names_t32", "MC_Names_t22") if thorough else ("MC_Names_alias1",)):
+    for cfg in more:
         if True:
-            c2, j2, r2, info = leg_small(run, cfg, workers=8 if thorough else 4, shards=16)
+            c2, j2, r2, info = leg_small(run, cfg, workers=8 if thorough else 4, shards=16, coverage="collide" in cfg, pre=pre.get(cfg))
             ginfo[cfg] = info
             run.sample({"leg": "G", "cfg": cfg, "defs": render_defs(c2[len(c2) // 3])})
+            if cfg != "MC_Names_t32":
+                for c in c2:
+                    universe.setdefault(frozenset(def_items(c)), c)
             del c2, j2, r2
     run.note("small_universe", ginfo)
+
+    # ---- H (small universe): growing databases on one long-lived context
+    chains, hjobs, hres, hinfo = leg_history(run, universe, rng, 16, per_case=3 if thorough else 2,
+                                             limit=150000 if thorough else 12000)
+    selfcheck_history(run, universe, chains, hjobs, hres)
+    if chains:
+        run.sample({"leg": "H", "loads": [st["defs"] for st in hjobs[len(hjobs) // 2]["stages"]]})
+    run.note("histories", hinfo)
+    del universe, chains, hjobs, hres
+    run.note("canonical_names_outside_the_query_universe", judge_outside(run, rng, None if thorough else 3000))
 
     # ---- V
     dump = regkit.get_dump("bundled")
@@ -384,14 +937,61 @@ def run(tier, seed):
     vinfo = leg_bundled(run, dump, envp, names, 16 if thorough else 10, tier)
     vinfo["all_names"] = len(allnames)
     run.note("bundled", vinfo)
+
+    # ---- H (bundled database): names asked, a further load, the names asked again
+    rounds = 4 if thorough else 1
+    binfo = []
+    for _ in range(rounds):
+        binfo.append(leg_bundled_history(run, dump, rng, ["kilometers", "mm", "min"] + rng.sample(allnames, 600), 2))
+    run.note("bundled_history", binfo)
     run.sample({"leg": "V", "names": names[:3] + names[len(names) // 2:len(names) // 2 + 3]})
     return run.finish()
+
+
+def replay_history(case):
+    if case["engine"] == "history":
+        qs = queries() if case.get("name") is None else [case["name"]]
+        asked = case.get("asked") or [True] * len(case["loads"])
+        job = {"id": 0, "base": "empty", "stages": [{"defs": d, "ask": a} for d, a in zip(case["loads"], asked)]}
+        rs = regkit.run_sharded(lambda i, o: [vlib.rv("rv-names"), "history", "--in", i, "--out", o], [job], 1, "c07r",
+                                header={"names": [cps_of(q) for q in qs]})[0]
+        for k, d in enumerate(case["loads"]):
+            log("load %d%s: %r" % (k, "" if asked[k] else " (nothing asked after it)", d))
+    else:
+        qs = [case["name"]] if case.get("name") else ["kilometers"]
+        rs = run_bundled_history(case["defs"], qs, tag="c07r")
+        log("bundled database, then a further load: %r" % case["defs"][:2000])
+    if "crash" in rs:
+        log("crash: %s" % rs)
+        return 1
+    bad = False
+    for k, st in enumerate(rs["stages"]):
+        if not st.get("reg_fresh_same", True):
+            log("after load %d: the registry differs from the one the same loads give on a context that was never asked anything "
+                "(errors of the load: %s)" % (k, st["errors"]))
+            bad = True
+        if "hits" not in st or (case.get("stage") is not None and k != case["stage"]):
+            continue
+        events, det = stage_events(qs, st)
+        verdicts, _ = regkit.judge(events, "Trace_Names", stage_env("c07r-env.json", st), shards=1, tag="c07rj")
+        rej = [(s_of(events[i]["n"]), d) for i, v in verdicts.items() for t, d in v if t == "REJECT"]
+        nondet = [qs[i] for i, (a, f) in enumerate(det) if not (a and f)]
+        for ev in events[:5]:
+            log("after load %d, name %r: lookup %s canonical %r -> %s" % (
+                k, s_of(ev["n"]), json.dumps(ev.get("l"))[:200], s_of(ev["canon"]) if "canon" in ev else None,
+                json.dumps(ev.get("cl"))[:200]))
+        log("after load %d: rejected by Trace_Names against the registry of that moment: %s; differs from a repeated lookup or from a "
+            "context with the same loads that was never asked: %s" % (k, rej or "nothing", nondet or "nothing"))
+        bad = bad or bool(rej) or bool(nondet)
+    return 1 if bad else 0
 
 
 def replay(path, seed):
     body = json.load(open(path))
     case = body["case"]
     vlib.build_harness()
+    if case["engine"] in ("history", "bundled-history"):
+        return replay_history(case)
     if case["engine"] == "small":
         qs = queries() if case.get("name") is None else [case["name"]]
         res = regkit.run_sharded(lambda i, o: [vlib.rv("rv-names"), "small", "--in", i, "--out", o],
